@@ -30,7 +30,10 @@ type NodeIn struct {
 type GraffitiIn struct {
 	Graffiti []byte   `json:"graffiti"` // at most 32 bytes; padded with zeroes to 32
 	Nodes    []NodeIn `json:"nodes"`
-	Trace    bool     `json:"trace_log,omitempty"`
+	// Then: what a node answers when its NodeClient is asked again within the operation
+	// ("" the same | flip | nil: an error-free answer that carries nothing); the code asks once.
+	Then  string `json:"then,omitempty"`
+	Trace bool   `json:"trace_log,omitempty"`
 }
 
 type p3log struct {
@@ -43,6 +46,7 @@ type p3node struct {
 	idx int
 	in  NodeIn
 	log *p3log
+	sc  *again
 }
 
 func (n *p3node) Proposal(_ context.Context, opts *api.ProposalOpts) (*api.Response[*api.VersionedProposal], error) {
@@ -55,10 +59,20 @@ func (n *p3node) Proposal(_ context.Context, opts *api.ProposalOpts) (*api.Respo
 type p3named struct{ *p3node }
 
 func (n p3named) NodeClient(context.Context) (*api.Response[string], error) {
-	n.log.mu.Lock()
-	n.log.order = append(n.log.order, n.idx)
-	n.log.mu.Unlock()
-	if n.in.Kind == "err" {
+	fail := n.in.Kind == "err"
+	calls, then := n.sc.call(fmt.Sprintf("nodeclient-%d", n.idx))
+	if calls == 1 {
+		n.log.mu.Lock()
+		n.log.order = append(n.log.order, n.idx)
+		n.log.mu.Unlock()
+	}
+	switch then {
+	case "flip":
+		fail = !fail
+	case "nil":
+		return nil, nil
+	}
+	if fail {
 		return nil, errors.New("scripted node client failure")
 	}
 	return &api.Response[string]{Data: string(n.in.Name), Metadata: map[string]any{}}, nil
@@ -90,8 +104,9 @@ func runGraffiti(t *testing.T, in *GraffitiIn) result {
 		ctx, cancel := context.WithCancel(context.Background())
 		defer cancel()
 		provs := map[string]eth2client.ProposalProvider{}
+		sc := &again{then: in.Then}
 		for i, n := range in.Nodes {
-			node := &p3node{idx: i, in: n, log: lg}
+			node := &p3node{idx: i, in: n, log: lg, sc: sc}
 			if n.Kind == "not" {
 				provs[fmt.Sprintf("node-%d", i)] = node
 			} else {
@@ -263,5 +278,6 @@ func genGraffiti(r *Rand) *GraffitiIn {
 			in.Nodes = append(in.Nodes, NodeIn{Kind: "name", Name: []byte(clientNames[r.Intn(len(clientNames))])})
 		}
 	}
+	in.Then = []string{"", "flip", "flip", "nil"}[r.Intn(4)]
 	return in
 }
